@@ -96,7 +96,8 @@ class Env(object):
         from malt.impl import api
         return {'U': self.U, 'A': self.A, 'N': self.N, 'functools': functools, 'math': math,
                 'operator': operator, 're': re, 'api': api, 'io': io, 'mkpartial': mkpartial,
-                'collections': __import__('collections'), 'copy': __import__('copy')}
+                'collections': __import__('collections'), 'copy': __import__('copy'),
+                'decimal': __import__('decimal'), 'np': __import__('numpy') if have_numpy() else None}
 
 
 def mkpartial(f, *a, **k):
@@ -192,6 +193,13 @@ ENTRIES = [
     ('repr', 'never', [(('a',), None)]),
     ('divmod', 'never', [((7, 2), None)]),
     ('math.hypot', 'never', [((3, 4), None), ((3, 4), {})]),
+    # native callables that merely share the NAME of an overloaded builtin: they must be called as they are
+    ('decimal.Context(prec=2).abs', 'never', [((('D', '-1.23456'),), None), ((('D', '-7.891'),), {})]),
+    ('operator.abs', 'never', [((-3,), None)]),
+    ('np.array([0, 2]).any', 'never', [((), None), ((), {}), ((), {'axis': 0})]),
+    ('np.array([[0, 2], [3, 0]]).all', 'never', [((), None), ((), {'axis': 1}), ((0,), {})]),
+    ('np.float64(0.0).any', 'never', [((), None)]),
+    ('np.int64(3).all', 'never', [((), {})]),
     ('operator.add', 'never', [((1, 2), None)]),
     ('operator.itemgetter(1)', 'never', [(('abc',), None), (([1, 2],), {})]),
     ('str.upper', 'never', [(('ab',), None)]),
@@ -221,8 +229,24 @@ ENTRIES = [
 
 
 def fix_args(env, args):
-    """('K', n) placeholders -> instances (unbound method calls need a receiver)"""
-    return tuple(env.U.K(a[1]) if isinstance(a, tuple) and len(a) == 2 and a[0] == 'K' else a for a in args)
+    """('K', n) placeholders -> instances (unbound method calls need a receiver); ('D', s) -> Decimal(s)"""
+    import decimal
+
+    def one(a):
+        if isinstance(a, (tuple, list)) and len(a) == 2 and a[0] == 'K':
+            return env.U.K(a[1])
+        if isinstance(a, (tuple, list)) and len(a) == 2 and a[0] == 'D':
+            return decimal.Decimal(a[1])
+        return a
+    return tuple(one(a) for a in args)
+
+
+def have_numpy():
+    try:
+        import numpy   # noqa
+        return True
+    except Exception:   # noqa
+        return False
 
 
 # =========================================================================================
@@ -378,6 +402,8 @@ def canon(v):
         return v
     if isinstance(v, re.Pattern):
         return ('pattern', v.pattern)
+    if type(v).__module__ == 'numpy' and hasattr(v, 'tolist'):
+        return ('numpy', type(v).__name__, canon(v.tolist()))
     r = repr(v)
     return ('obj', type(v).__name__, re.sub(r' at 0x[0-9a-f]+', '', r))
 
@@ -861,6 +887,8 @@ def _check(run, tmp):
         env = Env(tmp)
         try:
             for expr, klass, shapes in ENTRIES:
+                if expr.startswith('np.') and not have_numpy():
+                    continue
                 sh = list(shapes)
                 if not thorough and cfg != configs[0] and len(sh) > 3:
                     sh = rnd.sample(sh, 3)
@@ -1053,7 +1081,7 @@ def run_e2e(run, tmp, rnd, thorough):
             conv_call_it = api.convert(recursive=recursive)(env.U.call_it)
             conv_call_star = api.convert(recursive=recursive)(env.U.call_star)
             for expr, klass, shapes in ENTRIES:
-                if klass in ('kf-self', 'kf-call', 'uncallable', 'artifact'):
+                if klass in ('kf-self', 'kf-call', 'uncallable', 'artifact') or (expr.startswith('np.') and not have_numpy()):
                     continue
                 sh = shapes if thorough else shapes[:2]
                 for args, kwargs in sh:
@@ -1240,6 +1268,40 @@ def run_predicates(run, tmp, rnd, thorough, other_cases):
                 sys.modules.pop(name, None)
             if got != (act == 'RDoNotConvert'):
                 fails.append(('is_allowlisted(function of module %r) = %r but the rules say %s' % (name, got, act), None, {'module_name': name}))
+    # ---- py_builtins.overload_of: chosen by identity with a listed builtin, never by name
+    from malt.operators import py_builtins
+    import builtins as _builtins
+    import decimal
+    named = {'abs': [decimal.Context(prec=2).abs, operator.abs]}
+    if have_numpy():
+        import numpy as np
+        named.setdefault('any', []).extend([np.array([0, 2]).any, np.float64(0.0).any])
+        named.setdefault('all', []).extend([np.array([0, 2]).all, np.int64(3).all])
+    for k in sorted(set(py_builtins.BUILTIN_FUNCTIONS_MAP) | set(b.__name__ for b in py_builtins.SUPPORTED_BUILTINS)):
+        objs = list(named.get(k, []))
+        if hasattr(_builtins, k):
+            objs.append(getattr(_builtins, k))
+        pyfn = types.FunctionType(compile('def %s(*a):\n    return a\n' % k, '<c13-named>', 'exec').co_consts[0], {})
+        objs += [pyfn, types.SimpleNamespace(__name__=k)]
+        for x in objs:
+            in_sup = any(x is b for b in py_builtins.SUPPORTED_BUILTINS)
+            in_map = getattr(x, '__name__', None) in py_builtins.BUILTIN_FUNCTIONS_MAP
+            desc = {'overload_of': '%s %r (__name__ = %r)' % (type(x).__name__, x, k)}
+            try:
+                r = py_builtins.overload_of(x)
+            except Exception as e:   # noqa
+                fails.append(('overload_of(%r) raised %r' % (x, e), None, desc))
+                continue
+            mapped = r is not x
+            other_cases.append(('COverload @ID@ (mk_ov %s %s) %s' % (coq_b(in_sup), coq_b(in_map), coq_b(mapped)),
+                                dict(desc, in_supported=in_sup, name_in_map=in_map, mapped=mapped)))
+            run.count()
+            run.nontriv(('overload', k, type(x).__name__))
+            if mapped != in_sup:
+                fails.append(('overload_of replaces %r (a %s that is %sone of SUPPORTED_BUILTINS) by %r'
+                              % (x, type(x).__name__, '' if in_sup else 'NOT ', r), None, desc))
+            elif mapped and r is not py_builtins.BUILTIN_FUNCTIONS_MAP[k]:
+                fails.append(('overload_of(%r) gives %r, not the overload registered under %r' % (x, r, k), None, desc))
     # ---- is_unsupported / is_allowlisted on real objects, with a stand-in `wrapt`
     env = Env(tmp)
     fake_wrapt = types.ModuleType('wrapt')
